@@ -36,13 +36,15 @@ OBLIGATIONS = [
     {"id": "C08_W7_F32", "theorem": "Iora.C08.W7_without_retest_witness", "kind": "proved", "finding": "F32",
      "statement": "on record: without the re-test a schedule exists that leaves an accepted entry in the stopped wheel"},
     {"id": "C08_G_service", "theorem": "Iora.C08.G_service_shapes", "kind": "proved",
-     "statement": "Gen conformance: re-tests under _mutex, cancel/collect under _mutex, erase before hand-over, pre-announce under lock, drain restore under lock, stop() clears _accepting and publishes Stopped under lock (F23), periodic cancel guard (F41)"},
+     "statement": "Gen conformance: re-tests under _mutex, cancel/collect under _mutex, erase before hand-over, pre-announce under lock, drain restore under lock, stop() clears _accepting and publishes Stopped under lock (F23), periodic cancel guard (F41) closed by cancel() unconditionally (not only on the !entry.canceled transition)"},
     {"id": "C08_S1", "theorem": "Iora.C08.S1_collected_exactly_once", "kind": "proved",
      "statement": "for every list of atomic steps: started + skipped-by-cancel + waiting = collected (multisets); no (id, firing) collected or started twice"},
     {"id": "C08_S2", "theorem": "Iora.C08.S2_collected_is_due", "kind": "proved",
      "statement": "every collected invocation has tp <= now and tp = t0 + k*iv with (t0, iv) the caller's request; k-th periodic firing not before k intervals"},
     {"id": "C08_S3a", "theorem": "Iora.C08.S3_cancelled_never_starts", "kind": "proved",
-     "statement": "after cancel = true, for every continuation, no handler of the id starts (incl. invocations collected before the cancel)"},
+     "statement": "after cancel = true in a state reached by ANY history (incl. drain gate/sweep/timeout/restore and stop steps: a sweep marks periodic entries without closing their guards), for every continuation, no handler of the id starts (incl. invocations collected before the cancel); uses Gen: cancel closes the guard on every periodic entry it finds"},
+    {"id": "C08_S3a_C08b", "theorem": "Iora.C08.S3_conditional_close_witness", "kind": "proved", "finding": "seeded C08-b",
+     "statement": "on record: with the guard closed only on the `!entry.canceled` transition, a drain sweep followed by cancel(P)=true lets P's waiting invocation start"},
     {"id": "C08_S3b", "theorem": "Iora.C08.S3_false_means_not_pending", "kind": "proved",
      "statement": "cancel = false => no live record and no periodic entry of the id"},
     {"id": "C08_S3c", "theorem": "Iora.C08.S3_record_accounting", "kind": "proved",
@@ -372,7 +374,9 @@ MS = 1000000
 
 def gen_svc_case(rng, idx):
     """ops for harness/c08_svc.cpp: the real TimerService with its loop thread parked in epoll_wait between `wake`s"""
-    style = rng.below(6)     # 0-2 mixed, 3 heap stress (many timers, ties), 4 gates + concurrent cancel/schedule, 5 small limits
+    if rng.chance(1, 8):
+        return gen_svc_sweep_case(rng, idx)
+    style = rng.below(7)     # 0-2 mixed, 3 heap stress (many timers, ties), 4 gates + concurrent cancel/schedule, 5 small limits, 6 drains
     if style == 5:
         lim = (rng.range(1, 4), rng.range(0, 2), rng.choice([50, 5, 86400000]))
     else:
@@ -422,11 +426,80 @@ def gen_svc_case(rng, idx):
             ops.append("inflight")
         else:
             ops.append("wake")
+        if style == 6 and rng.chance(1, 5):
+            # drain(ms) on a helper thread: gate, sweep, wait; it completes / times out / keeps waiting as the clock and the loop go on
+            j = rng.below(10)
+            if j < 5:
+                ops.append("drain %d" % rng.choice([1, 2, 3, 5, 10, 20, 50, 1000, 5000]))
+            elif j < 8:
+                ops.append("dwait")
+            else:
+                clk += rng.choice([MS, 3 * MS, 10 * MS, 20 * MS, 50 * MS])
+                ops.append("clk %d" % clk)
     # wind down: open every gate, cancel the periodic timers, let everything that is due fire
     for _ in range(6):
         ops.append("release")
+    if style == 6:
+        ops.append("dwait")
     ops.append("inflight")
     return {"cat": "svc", "ops": ops, "idx": idx, "style": style, "limits": list(lim), "kind": "svc"}
+
+
+def gen_svc_sweep_case(rng, idx):
+    """the drain-sweep window: a periodic invocation waits in the loop's ready list behind a gated handler while a drain() (which
+    then completes, keeps waiting, or times out and puts the service back to Running) sweeps the periodic entries; cancel(P) follows"""
+    ops = ["reset 10000 1000 86400000"]
+    ids = 0
+    noise = rng.below(3)
+    for _ in range(noise):
+        ops.append(rng.choice(["at %d n" % (rng.range(40, 900) * MS), "per %d n" % (rng.range(30, 90) * MS), "at %d n" % (rng.range(6000, 9000) * MS)]))
+        ids += 1
+    iv = rng.choice([2, 3, 5, 7]) * MS
+    variant = rng.below(3)
+    if variant == 2:
+        # gate G first, then a handler that itself cancels P, then P: all in one batch
+        ops.append("at %d g" % rng.choice([0, MS, iv]))
+        g = ids + 1
+        ops.append("at %d x%d" % (iv, ids + 3))
+        ops.append("per %d n" % iv)
+        p_id = ids + 3
+        ids += 3
+    else:
+        ops.append("at %d g" % rng.choice([0, MS, iv - 1, iv]))
+        g = ids + 1
+        ops.append("per %d %s" % (iv, rng.choice(["n", "n", "g"])))
+        p_id = ids + 2
+        ids += 2
+    clk = iv + rng.choice([0, 0, 1, MS])
+    ops += ["clk %d" % clk, "wake"]                       # G blocks; P's invocation waits in `ready`
+    ms = rng.choice([1, 2, 5, 20, 1000, 5000])
+    ops.append("drain %d" % ms)                           # gate + sweep: P's periodic entry is marked, its guard is not touched
+    how = rng.below(4)
+    if how == 1:
+        clk += ms * MS + rng.choice([0, 1, MS])           # the drain times out: service back to Running
+        ops.append("clk %d" % clk)
+        if rng.chance(1, 2):
+            ops.append("dwait")
+    elif how == 2:
+        clk += ms * MS
+        ops += ["clk %d" % clk, "dwait", "drain %d" % rng.choice([1, 5, 1000])]   # a second sweep after the first one timed out
+    elif how == 3 and rng.chance(1, 2):
+        ops.append("at %d n" % (clk + MS))                # refused: draining
+    if variant != 2:
+        ops.append("cancel %d" % p_id)                    # true: the entry is still there (marked by the sweep)
+        if rng.chance(1, 3):
+            ops.append("cancel %d" % p_id)
+    ops.append("release")                                 # G returns; the loop thread goes on with the batch
+    for _ in range(rng.range(1, 4)):
+        clk += rng.choice([iv, 2 * iv, MS, 30 * MS])
+        ops += ["clk %d" % clk, "wake"]
+        if rng.chance(1, 3):
+            ops.append("release")
+    for _ in range(4):
+        ops.append("release")
+    clk += 6000 * MS
+    ops += ["clk %d" % clk, "dwait", "inflight"]
+    return {"cat": "svc-sweep", "ops": ops, "idx": idx, "style": 7, "limits": [10000, 1000, 86400000], "kind": "svc"}
 
 
 def gen_svc_winddown(c, impl_so_far=None):
@@ -462,6 +535,7 @@ def monitor_svc(c, impl):
     starts = {}        # id -> number of starts
     cancelled_ok = {}  # id -> True once cancel answered true
     cancel_false = set()
+    swept = set()      # one-shot ids a drain(ms) sweep cancelled (tp beyond clock + ms at the sweep)
     blocked = False
     limits = c.get("limits", [10000, 1000, 86400000])
 
@@ -477,6 +551,8 @@ def monitor_svc(c, impl):
                 d = info[i]
                 if cancelled_ok.get(i):
                     bad.append("S3: handler of timer %d starts after cancel(%d) returned true" % (i, i))
+                if i in swept:
+                    bad.append("S3: handler of timer %d starts after a drain() sweep had cancelled it" % i)
                 if d["periodic"]:
                     due = d["t0"] + starts[i] * d["iv"]
                     if now < due:
@@ -529,10 +605,15 @@ def monitor_svc(c, impl):
         elif t[0] in ("wake", "release"):
             evs = head[3:].split(",") if head.startswith("ev=") and head != "ev=-" else []
             on_events(evs, clk)
+        elif t[0] == "drain" and head in ("d=wait", "d=ok", "d=timeout"):
+            horizon = clk + int(t[1]) * MS
+            for i, d in info.items():
+                if not d["periodic"] and starts.get(i, 0) == 0 and not cancelled_ok.get(i) and d["tp"] > horizon:
+                    swept.add(i)
     # end of case (all gates were opened): cancel=false on the running service => the one-shot handler ran exactly once
     if not blocked:
         for i in cancel_false:
-            if not info[i]["periodic"] and not cancelled_ok.get(i) and starts.get(i, 0) != 1:
+            if not info[i]["periodic"] and not cancelled_ok.get(i) and i not in swept and starts.get(i, 0) != 1:
                 bad.append("S3: cancel(%d) = false on a running service but the handler ran %d times (must be exactly once)" % (i, starts.get(i, 0)))
         # nothing silently lost: a one-shot timer that is due at the last wake and was not cancelled has started
         last_wake_clk = None
@@ -545,7 +626,7 @@ def monitor_svc(c, impl):
                 last_wake_clk = clk2
         if last_wake_clk is not None and "busy" not in impl:
             for i, d in info.items():
-                if not d["periodic"] and not cancelled_ok.get(i) and d["tp"] <= last_wake_clk and starts.get(i, 0) == 0:
+                if not d["periodic"] and not cancelled_ok.get(i) and i not in swept and d["tp"] <= last_wake_clk and starts.get(i, 0) == 0:
                     # scheduled after the last wake? then it is still legitimately pending
                     sched_idx = [k for k, (o, a) in enumerate(zip(c["ops"], impl)) if o.startswith("at ") and a.split()[0] == str(i)][0]
                     wake_idx = max(k for k, o in enumerate(c["ops"]) if o == "wake")
@@ -723,26 +804,33 @@ def run(ctx: Ctx):
         ctx.model_argv("tsvc")
     except ModelBuildError:
         have_model = False
+    cut = {}
     if hb and have_model:
         r = rng.fork("wheel")
-        cases = load_corpus("wheel") + boundary_cases() + [gen_wheel_case(r, i) for i in range(3000 * scale)]
-        res = ctx.lockstep("wheel", hb, cases, timeout=900)
+        first = load_corpus("wheel") + boundary_cases()
+        cases = first + [gen_wheel_case(r, i) for i in range(3000 * scale)]
         tot = {"fired": 0, "cancel_ok": 0, "resched_ok": 0}
-        judge(ctx, hb, res, monitor_wheel, "wheel lockstep (harness/c08_wheel.cpp vs Model/TimingWheel.lean)", dist, rng,
-              stats=lambda c, impl: wheel_hyp_stats(c, impl), tot=tot, nontrivial=lambda st: st["fired"] > 0)
+        cut["wheel"] = run_phase(ctx, "wheel", hb, cases, len(first), 600, monitor_wheel, "wheel lockstep (harness/c08_wheel.cpp vs Model/TimingWheel.lean)",
+                                 dist, rng, lambda c, impl: wheel_hyp_stats(c, impl), tot, lambda st: st["fired"] > 0)
         ctx.extra["wheel_totals"] = tot
     if hs and have_model:
         r = rng.fork("svc")
-        cases = load_corpus("svc") + svc_boundary_cases() + [gen_svc_case(r, i) for i in range(1500 * scale)]
-        res = ctx.lockstep("tsvc", hs, cases, timeout=300)
-        tot = {"starts": 0, "cancel_ok": 0, "gate_blocks": 0}
-        judge(ctx, hs, res, monitor_svc, "service lockstep (harness/c08_svc.cpp vs Model/TimerService.lean)", dist, rng,
-              stats=svc_stats, tot=tot, nontrivial=lambda st: st["starts"] > 0)
+        first = load_corpus("svc") + svc_boundary_cases()
+        cases = first + [gen_svc_case(r, i) for i in range(1500 * scale)]
+        tot = {"starts": 0, "cancel_ok": 0, "gate_blocks": 0, "drains": 0, "drain_timeouts": 0}
+        cut["svc"] = run_phase(ctx, "tsvc", hs, cases, len(first), 400, monitor_svc, "service lockstep (harness/c08_svc.cpp vs Model/TimerService.lean)",
+                               dist, rng, svc_stats, tot, lambda st: st["starts"] > 0)
         ctx.extra["svc_totals"] = tot
+    ctx.extra["phases_cut_short"] = {k: v for k, v in cut.items() if v}
+    if hr and any(cut.values()):
+        # the deterministic phases already produced their failing inputs: on such a tree the real-time scenarios add minutes
+        # (aborts, hangs until the time-out) and no new kind of evidence
+        ctx.extra["rt_skipped"] = "deterministic phases already reported violations with failing inputs"
+        hr = None
     if hr:
         sc = rt_scenarios(rng.fork("rt"), 1 if quick else 4)
         t_rt = __import__("time").time()
-        out, rc, err = ctx.run_lines([hr], ["%s %d %d" % x for x in sc], timeout=600)
+        out, rc, err = ctx.run_lines([hr], ["%s %d %d" % x for x in sc], timeout=90)
         ctx.extra["rt_wall_s"] = round(__import__("time").time() - t_rt, 1)
         tot = {"scheduled": 0, "handlers": 0, "cancel_ok": 0, "refused_after_stop": 0}
         if rc != 0 or len(out) != len(sc):
@@ -775,7 +863,7 @@ def run(ctx: Ctx):
     ctx.assumptions += [
         "wheel: 64-bit tick counters and nanosecond arithmetic do not wrap (now + delay < 2^63 ns); steady_clock values are whatever the op list says (no monotonicity assumed by the theorems)",
         "wheel lockstep: advance() is issued by the op list under an interposed CLOCK_MONOTONIC (the real start() runs, its tick thread is joined at once); the tick thread's own timing is exercised only in the real-time part",
-        "service lockstep: the real loop thread is single-stepped by an interposed epoll_wait; timerfd/eventfd wake-ups are replaced by the op `wake`",
+        "service lockstep: the real loop thread is single-stepped by an interposed epoll_wait; timerfd/eventfd wake-ups are replaced by the op `wake`; drain(ms) runs on a helper thread whose timed wait is interposed and which re-evaluates predicate and (virtual) deadline after every op (a forced spurious wake-up), so completion / time-out / restore happen at op boundaries",
         "service model: the atomic steps are the `_mutex` sections (+ handler start/end); stop() is called by one thread at a time; the periodic cancel guard is checked atomically with the handler start",
         "real-time part: safety monitors over measured steady-clock timestamps (call/return of schedule/cancel/stop, handler start/end); a periodic handler body may start up to 1 ms after cancel() returned (guard check precedes the body); RT6 (nothing lost) is a watchdog with 150/400 ms slack",
     ]
@@ -794,27 +882,57 @@ def svc_stats(c, impl):
                 st["gate_blocks"] += 1
         if op.startswith("cancel") and head == "1":
             st["cancel_ok"] += 1
+        if op.startswith("drain") and head in ("d=wait", "d=ok"):
+            st["drains"] = st.get("drains", 0) + 1
+        if op == "dwait" and head == "d=timeout":
+            st["drain_timeouts"] = st.get("drain_timeouts", 0) + 1
     return st
 
 
-def judge(ctx, hbin, res, monitor, what, dist, rng, stats, tot, nontrivial):
+def run_phase(ctx, comp, hbin, cases, n_first, chunk, monitor, what, dist, rng, stats, tot, nontrivial):
+    """Lockstep + monitors over `cases`, in chunks (the witnesses/boundary cases first).  The phase stops as soon as it has reported
+    3 violations of one class or 6 in all: each further failing case on a broken tree only costs sanitizer aborts, watchdog
+    seconds, harness restarts and shrinking runs, and adds nothing to what is already reported.  Returns a note if cut short."""
+    seen = {}
+    i = 0
+    while i < len(cases):
+        n = n_first if i == 0 and n_first else chunk
+        part = cases[i:i + n]
+        i += n
+        res = ctx.lockstep(comp, hbin, part, timeout=300)
+        judge(ctx, hbin, res, monitor, what, dist, rng, stats, tot, nontrivial, seen)
+        if seen and (max(seen.values()) >= 3 or sum(seen.values()) >= 6) and i < len(cases):
+            note = "stopped after %d of %d cases: %s" % (i, len(cases), seen)
+            ctx.log("phase %s cut short: %s" % (comp, note))
+            return note
+    return None
+
+
+def judge(ctx, hbin, res, monitor, what, dist, rng, stats, tot, nontrivial, seen=None):
     """property monitor on the implementation's answers first; a pure model/implementation difference is a correspondence break"""
     n_mismatch = 0
+    seen = seen if seen is not None else {}
     for c, impl, model in res:
         dist[c["cat"]] = dist.get(c["cat"], 0) + 1
         st = stats(c, impl)
         for k in tot:
             tot[k] += st.get(k, 0)
         ctx.count_case("\n".join(c["ops"]), nontrivial=nontrivial(st))
-        if c["cat"] in ("wheel", "svc") and len(ctx.cov["samples"]) < 6 and rng.chance(1, 400):
+        if c["cat"] in ("wheel", "svc", "svc-sweep") and len(ctx.cov["samples"]) < 6 and rng.chance(1, 400):
             ctx.sample({"cat": c["cat"], "ops": c["ops"][:12], "impl": [l[:150] for l in impl[:12]]})
         fails = monitor(c, impl)
         mism = [(i, a, b) for i, (a, b) in enumerate(zip(impl, model)) if a != b]
         if fails:
-            report_property(ctx, hbin, c, impl, model, fails, monitor)
+            cls = "property:" + fails[0].split(":")[0]
+            seen[cls] = seen.get(cls, 0) + 1
+            if seen[cls] <= 3:
+                report_property(ctx, hbin, c, impl, model, fails, monitor)
+            else:
+                ctx.violation("property", fails[0])     # counted, not shrunk again
         elif mism:
             n_mismatch += 1
-            if n_mismatch <= 3:
+            seen["correspondence"] = seen.get("correspondence", 0) + 1
+            if seen["correspondence"] <= 3:
                 i, a, b = mism[0]
                 ctx.violation("correspondence", "model and implementation disagree (no property monitor fails on this case): op `%s` impl=`%s` model=`%s`"
                               % (c["ops"][i][:120], a[:160], b[:160]),
